@@ -10,7 +10,9 @@
 From Coq Require Import Arith List Bool Lia QArith Qcanon.
 From QV.Core Require Import OF QcOF Sums Mat Cplx.
 From QV.Model Require Import QObj C08_Forward.
-From QV.Proofs Require Import C08_Forward.
+From QV.Model Require C02_Conv.
+From QV.Proofs Require C02_Conv.
+From QV.Proofs Require Import C08_Forward C08_Shape C08_Operator.
 Import ListNotations.
 
 (* ---- forward model = Born statistics, whole stacked vector, schedule by schedule in schedule order, outcome by outcome.
@@ -91,6 +93,54 @@ Theorem C08_qpt_shape : forall (F : OF) d para (states : list (lvec F)) (povms :
   length (calc_matA dct) = natsum (qpt_counts F povms scheds) /\ length (calc_vecB dct) = natsum (qpt_counts F povms scheds).
 Proof. exact qpt_shape. Qed.
 Print Assumptions C08_qpt_shape.
+
+Theorem C08_qmpt_shape : forall (F : OF) d (para : bool) m (states : list (lvec F)) (povms : list (list (lvec F))) (scheds : list (nat * nat)),
+  (0 < d)%nat -> ((if para then 2 else 1) <= m)%nat ->
+  (forall ik, In ik scheds -> length (nth (fst ik) states []) = (d * d)%nat /\
+                              forall pv, In pv (nth (snd ik) povms []) -> length pv = (d * d)%nat) ->
+  exists dct, qmpt_coeffs F para (d * d) m states povms scheds = Some dct /\
+    Forall (fun r => length r = qmpt_num_variables para d m) (calc_matA dct) /\
+    length (calc_matA dct) = natsum (qmpt_counts F m povms scheds) /\ length (calc_vecB dct) = natsum (qmpt_counts F m povms scheds).
+Proof. exact qmpt_shape. Qed.
+Print Assumptions C08_qmpt_shape.
+
+(* ---- the coefficient-level Born rule of the forward theorems IS the operator-level Born rule: for an orthonormal operator basis B,
+   A v + b = Re tr(E^dagger rho(v)) -- resp. Re tr(E^dagger G_v(rho)) -- schedule by schedule, outcome by outcome, the operators being
+   rebuilt from the coefficient vectors (QObj.op_of_vec) and gates acting through QObj.apply_hs (C02's vocabulary and library) *)
+Theorem C08_qst_forward_operator : forall (F : OF) d (B : nat -> cmat F) para sd (povms : list (list (lvec F))) (scheds : list nat) (v : rvec F),
+  basis_orthonormal d B -> sd <> c0 F ->
+  (forall i, In i scheds -> forall pv, In pv (nth i povms []) -> length pv = (d * d)%nat) ->
+  affine (calc_matA (qst_coeffs F para sd povms scheds)) (calc_vecB (qst_coeffs F para sd povms scheds)) v
+  = concat (map (fun i => map (fun pv => op_born F d B (vl pv) (state_of_var F para sd v)) (nth i povms [])) scheds).
+Proof. exact qst_forward_op. Qed.
+Print Assumptions C08_qst_forward_operator.
+Theorem C08_povmt_forward_operator : forall (F : OF) d (B : nat -> cmat F) para sd m (states : list (lvec F)) (scheds : list nat) (v : rvec F),
+  basis_orthonormal d B -> (0 < d)%nat -> (forall i, In i scheds -> length (nth i states []) = (d * d)%nat) ->
+  affine (calc_matA (povmt_coeffs F para sd m states scheds)) (calc_vecB (povmt_coeffs F para sd m states scheds)) v
+  = concat (map (fun i => map (fun x => op_born F d B (povm_of_var F para sd (d * d) m v x) (vl (nth i states []))) (seq O m)) scheds).
+Proof. exact povmt_forward_op. Qed.
+Print Assumptions C08_povmt_forward_operator.
+Theorem C08_qpt_forward_operator : forall (F : OF) d (B : nat -> cmat F) para (states : list (lvec F)) (povms : list (list (lvec F)))
+    (scheds : list (nat * nat)) (v : rvec F),
+  basis_orthonormal d B -> (0 < d)%nat ->
+  (forall ik, In ik scheds -> length (nth (fst ik) states []) = (d * d)%nat /\ forall pv, In pv (nth (snd ik) povms []) -> length pv = (d * d)%nat) ->
+  affine (calc_matA (qpt_coeffs F para states povms scheds)) (calc_vecB (qpt_coeffs F para states povms scheds)) v
+  = concat (map (fun ik => map (fun pv => op_born_gate F d B (vl pv) (hs_of_var F para (d * d) v) (vl (nth (fst ik) states []))) (nth (snd ik) povms [])) scheds).
+Proof. exact qpt_forward_op. Qed.
+Print Assumptions C08_qpt_forward_operator.
+Theorem C08_qmpt_forward_operator : forall (F : OF) d (B : nat -> cmat F) (para : bool) m (states : list (lvec F)) (povms : list (list (lvec F)))
+    (scheds : list (nat * nat)),
+  basis_orthonormal d B -> (0 < d)%nat -> ((if para then 2 else 1) <= m)%nat ->
+  (forall ik, In ik scheds -> length (nth (fst ik) states []) = (d * d)%nat /\ forall pv, In pv (nth (snd ik) povms []) -> length pv = (d * d)%nat) ->
+  exists dct, qmpt_coeffs F para (d * d) m states povms scheds = Some dct /\
+    forall v : rvec F, affine (calc_matA dct) (calc_vecB dct) v
+      = concat (map (fun ik => flat_map (fun x => map (fun pv => op_born_gate F d B (vl pv) (hss_of_var F para (d * d) m v x) (vl (nth (fst ik) states [])))
+                                                   (nth (snd ik) povms [])) (seq O m)) scheds).
+Proof. exact qmpt_forward_op. Qed.
+Print Assumptions C08_qmpt_forward_operator.
+(* the basis hypothesis is satisfiable in every dimension and over every field (matrix units) *)
+Example C08_example_orthonormal_basis : forall (F : OF) d, basis_orthonormal d (QV.Model.C02_Conv.comp_basis (F := F) d).
+Proof. intros F d. exact (QV.Proofs.C02_Conv.comp_basis_orthonormal F d). Qed.
 
 (* ---- full column rank.
    (a) the executable exact elimination DECIDES triviality of the kernel (this is what the harness runs on the rational
@@ -257,6 +307,21 @@ Theorem C08_qpt_fisher_slice : forall (F : OF) d para (states : list (lvec F)) (
   = qpt_born F d para (nth (fst (nth j scheds (O, O))) states []) (nth (snd (nth j scheds (O, O))) povms []) v.
 Proof. exact qpt_fisher_slice. Qed.
 Print Assumptions C08_qpt_fisher_slice.
+
+Theorem C08_povmt_fisher_slice : forall (F : OF) d para sd m (states : list (lvec F)) (scheds : list nat) (v : rvec F) j,
+  (0 < d)%nat -> (j < length scheds)%nat -> (forall i, In i scheds -> length (nth i states []) = (d * d)%nat) ->
+  let dct := povmt_coeffs F para sd m states scheds in
+  fisher_prob_dist F (calc_matA dct) (calc_vecB dct) v (povmt_counts m scheds) j = povmt_born F d para sd m (nth (nth j scheds O) states []) v.
+Proof. exact povmt_fisher_slice. Qed.
+Print Assumptions C08_povmt_fisher_slice.
+Theorem C08_qmpt_fisher_slice : forall (F : OF) d (para : bool) m (states : list (lvec F)) (povms : list (list (lvec F))) (scheds : list (nat * nat)) j,
+  (0 < d)%nat -> ((if para then 2 else 1) <= m)%nat -> (j < length scheds)%nat ->
+  (forall ik, In ik scheds -> length (nth (fst ik) states []) = (d * d)%nat /\ forall pv, In pv (nth (snd ik) povms []) -> length pv = (d * d)%nat) ->
+  exists dct, qmpt_coeffs F para (d * d) m states povms scheds = Some dct /\
+    forall v : rvec F, fisher_prob_dist F (calc_matA dct) (calc_vecB dct) v (qmpt_counts F m povms scheds) j
+      = qmpt_born F d para m (nth (fst (nth j scheds (O, O))) states []) (nth (snd (nth j scheds (O, O))) povms []) v.
+Proof. exact qmpt_fisher_slice. Qed.
+Print Assumptions C08_qmpt_fisher_slice.
 
 (* ---- is_fullrank_matA (code after fix fullrank-guard-column-rank, owner C09: rank == number of columns), the rank being the
    exact elimination (np.linalg.matrix_rank is an oracle compared by the harness): true <=> trivial kernel *)
